@@ -115,6 +115,40 @@ try:
                 out["facade_failures"].append([meth, "sent %d" % (dev.n - before)])
         except Exception as e:
             out["facade_failures"].append([meth, type(e).__name__])
+    # a plain device that fails: its own exception (and the built-in kinds) must reach the caller unchanged in every
+    # configuration — the facade must not need a binding that is not installed, on the failure path either
+    class NotReady(Exception):
+        pass
+
+    class FailingDev(Dev):
+        def execute(self, cmd, en_raw_sense=False):
+            self.n += 1
+            if self.fail is not None:
+                raise self.fail
+
+    fdev = FailingDev()
+    fdev.fail = None
+    fs = SCSI(fdev, 512)
+    fdev.opcodes = ec.sbc
+    for boom in (NotReady("not ready"), RuntimeError("x"), OSError(5, "io"), ValueError("v")):
+        for meth, args in (("testunitready", ()), ("read10", (0, 1)), ("inquiry", ())):
+            fdev.fail = boom
+            before = fdev.n
+            try:
+                getattr(fs, meth)(*args)
+                out["facade_failures"].append([meth, "device error %s swallowed" % type(boom).__name__])
+            except Exception as e:
+                if e is not boom or fdev.n != before + 1:
+                    out["facade_failures"].append([meth, "device raised %s, caller got %s: %s" % (type(boom).__name__, type(e).__name__, str(e)[:60])])
+    # the probe INQUIRY of an attach may fail too
+    fdev2 = FailingDev()
+    fdev2.fail = NotReady("unit attention")
+    try:
+        SCSI(fdev2, 512)
+        out["facade_failures"].append(["attach", "device error swallowed"])
+    except Exception as e:
+        if e is not fdev2.fail:
+            out["facade_failures"].append(["attach", "device raised NotReady, caller got %s: %s" % (type(e).__name__, str(e)[:60])])
 except Exception as e:
     out["import_failures"].append(["command sweep", type(e).__name__ + ": " + str(e)[:100]])
 print(json.dumps(out))
